@@ -65,15 +65,16 @@ Allowed(e) ==
     /\ MustAcceptAsBase(e) => e.out = "acc" /\ e.consumed = e.base /\ e.same_as_base /\ Canonical(e)
     /\ e.out = "acc" => AcceptedOK(e)
 
-Why(e) == IF ~WellFormedRec(e) THEN "malformed record (harness)"
-          ELSE IF e.out = "panic" THEN "the parser panicked"
-          ELSE IF MustReject(e) /\ e.out # "rej" THEN "accepted, but the specification marks this byte string invalid"
+\* short codes (one printed line); checks/c03.py expands them
+Why(e) == IF ~WellFormedRec(e) THEN "malformed"
+          ELSE IF e.out = "panic" THEN "panic"
+          ELSE IF MustReject(e) /\ e.out # "rej" THEN "must-reject"
           ELSE IF MustAcceptAsBase(e) /\ ~(e.out = "acc" /\ e.consumed = e.base /\ e.same_as_base /\ Canonical(e))
-               THEN "a valid encoding (possibly followed by other bytes) must be accepted as itself, consuming exactly its length"
-          ELSE IF e.consumed > e.len THEN "consumed more than the input"
-          ELSE IF ~e.wrote THEN "accepted a value that cannot be serialised"
-          ELSE IF e.reparse # "same" THEN "the re-serialisation of the accepted value does not parse to the same value"
-          ELSE "accepted a second representation: the re-serialisation differs from the consumed bytes"
+               THEN "must-accept"
+          ELSE IF e.consumed > e.len THEN "over-consumed"
+          ELSE IF ~e.wrote THEN "unwritable"
+          ELSE IF e.reparse # "same" THEN "reparse-differs"
+          ELSE "non-canonical"
 
 IsEnd(e) == e.m = "end" /\ e.len = l - 1
 
@@ -87,7 +88,7 @@ Accepted == LET n == TLCGet("stats").diameter - 1
             IN  IF n = Len(Rec) /\ n >= 1 /\ Rec[n].m = "end"
                 THEN PrintT(<< "TRACE", "accepted", n >>)
                 ELSE IF n = Len(Rec)
-                THEN PrintT(<< "TRACE", "rejected", n + 1, "missing end record" >>) /\ FALSE
+                THEN PrintT(<< "TRACE", "rejected", n + 1, "missing-end" >>) /\ FALSE
                 ELSE PrintT(<< "TRACE", "rejected", n + 1,
-                               IF Rec[n + 1].m = "end" THEN "end record out of place" ELSE Why(Rec[n + 1]) >>) /\ FALSE
+                               IF Rec[n + 1].m = "end" THEN "misplaced-end" ELSE Why(Rec[n + 1]) >>) /\ FALSE
 =========================================================================================
